@@ -16,6 +16,10 @@ func (rs *RecordSet) readFromVersion2(d *decoder) error {
 		return nil
 	}
 
+	if batchLength < 0 {
+		return fmt.Errorf("invalid negative record batch length: %d", batchLength)
+	}
+
 	dec := &decoder{
 		reader: d,
 		remain: int(batchLength),
